@@ -2,6 +2,7 @@ package main
 
 import (
 	"fmt"
+	"go/constant"
 	"go/types"
 	"runtime"
 	"sort"
@@ -55,7 +56,153 @@ func (e *Exec) doCall(ins ssa.CallInstruction, guard string) Value {
 	for _, a := range c.Args {
 		args = append(args, e.val(a))
 	}
+	if r, ok := e.stringModelCall(callee, c); ok {
+		return r
+	}
 	return e.callFunction(callee, bindings, args, guard)
+}
+
+// recoverVarargs returns the values the compiler packed into a variadic argument (slice of a fresh array
+// whose elements are stored exactly once each at constant indices).
+func recoverVarargs(v ssa.Value) ([]ssa.Value, bool) {
+	if cst, ok := v.(*ssa.Const); ok && cst.Value == nil {
+		return nil, true // no variadic arguments
+	}
+	sl, ok := v.(*ssa.Slice)
+	if !ok || sl.Low != nil || sl.High != nil || sl.Max != nil {
+		return nil, false
+	}
+	al, ok := sl.X.(*ssa.Alloc)
+	if !ok || al.Referrers() == nil {
+		return nil, false
+	}
+	at, ok := al.Type().(*types.Pointer).Elem().Underlying().(*types.Array)
+	if !ok {
+		return nil, false
+	}
+	out := make([]ssa.Value, at.Len())
+	for _, r := range *al.Referrers() {
+		switch r := r.(type) {
+		case *ssa.Slice, *ssa.DebugRef:
+		case *ssa.IndexAddr:
+			ic, ok := r.Index.(*ssa.Const)
+			if !ok || r.Referrers() == nil {
+				return nil, false
+			}
+			i := int(ic.Int64())
+			for _, rr := range *r.Referrers() {
+				st, ok := rr.(*ssa.Store)
+				if !ok || st.Addr != ssa.Value(r) || i < 0 || i >= len(out) || out[i] != nil {
+					return nil, false
+				}
+				val := st.Val
+				if mi, ok := val.(*ssa.MakeInterface); ok {
+					val = mi.X
+				}
+				out[i] = val
+			}
+		default:
+			return nil, false
+		}
+	}
+	for _, o := range out {
+		if o == nil {
+			return nil, false
+		}
+	}
+	return out, true
+}
+
+// stringModelCall gives fmt.Sprintf (constant format, verbs %d %s %v on integers and strings) and
+// path.Join / filepath.Join (string arguments) a functional model: the formatted string is the
+// concatenation of its pieces, a joined path is pathjoin(a, b) folded from the left. Anything else
+// falls back to the assumed contract of the function.
+func (e *Exec) stringModelCall(callee *ssa.Function, c *ssa.CallCommon) (Value, bool) {
+	if callee == nil || callee.Pkg == nil {
+		return Value{}, false
+	}
+	name := callee.Pkg.Pkg.Path() + "." + callee.Name()
+	switch name {
+	case "fmt.Sprintf":
+		if len(c.Args) != 2 {
+			return Value{}, false
+		}
+		fc, ok := c.Args[0].(*ssa.Const)
+		if !ok || fc.Value == nil || fc.Value.Kind() != constant.String {
+			return Value{}, false
+		}
+		vs, ok := recoverVarargs(c.Args[1])
+		if !ok {
+			return Value{}, false
+		}
+		format := constant.StringVal(fc.Value)
+		var parts []string
+		lit := ""
+		ai := 0
+		for i := 0; i < len(format); i++ {
+			if format[i] != '%' {
+				lit += string(format[i])
+				continue
+			}
+			if i+1 >= len(format) {
+				return Value{}, false
+			}
+			i++
+			switch format[i] {
+			case '%':
+				lit += "%"
+			case 'd', 's', 'v':
+				if ai >= len(vs) {
+					return Value{}, false
+				}
+				a := vs[ai]
+				ai++
+				var piece string
+				switch {
+				case isInteger(a.Type()) && format[i] != 's':
+					piece = "(strfromint " + e.val(a).S[0] + ")"
+				case isString(a.Type()) && format[i] != 'd':
+					piece = e.val(a).S[0]
+				default:
+					return Value{}, false
+				}
+				if lit != "" {
+					parts = append(parts, e.strConst(lit))
+					lit = ""
+				}
+				parts = append(parts, piece)
+			default:
+				return Value{}, false
+			}
+		}
+		if ai != len(vs) {
+			return Value{}, false
+		}
+		if lit != "" || len(parts) == 0 {
+			parts = append(parts, e.strConst(lit))
+		}
+		e.ensureStrDecls()
+		r := parts[0]
+		for _, p := range parts[1:] {
+			r = "(strcat " + r + " " + p + ")"
+		}
+		return Value{T: tString, S: []string{r}}, true
+	case "path.Join", "path/filepath.Join":
+		if len(c.Args) != 1 {
+			return Value{}, false
+		}
+		vs, ok := recoverVarargs(c.Args[0])
+		if !ok || len(vs) < 2 {
+			return Value{}, false
+		}
+		e.ensureStrDecls()
+		r := e.val(vs[0]).S[0]
+		for _, v := range vs[1:] {
+			r = "(pathjoin " + r + " " + e.val(v).S[0] + ")"
+		}
+		return Value{T: tString, S: []string{r}}, true
+	}
+	return Value{}, false
 }
 
 func typeKeyFull(t types.Type) string {
